@@ -32,7 +32,7 @@ NoCase == [id |-> 0, g |-> 0, w |-> <<>>, A |-> 1, M |-> 1, af |-> 0, cf |-> 1, 
            ib |-> 0, il |-> 1, ic |-> 1, cls |-> 0, xt |-> 0, bmax |-> 0, bchunk |-> 0, sched |-> 0]
 NoLast == [r |-> 0, v |-> -1, o |-> 0, mx |-> 0, lvl |-> 0, x |-> 0, eo |-> 0, tr |-> <<>>, endv |-> -1, endx |-> 0]
 Cnt0   == [ev |-> 0, cases |-> 0, den |-> 0, opq |-> 0, req |-> 0, look |-> 0, pos |-> 0, hook |-> 0, act |-> 0,
-           xcs |-> 0, ends |-> 0, raise |-> 0, fuel |-> 0, state |-> 0, sw |-> 0, tree |-> 0, rd |-> 0, cls2 |-> 0, ana |-> 0, anag |-> 0, anap |-> -1, anacert |-> 0, analoop |-> 0]
+           xcs |-> 0, ends |-> 0, raise |-> 0, fuel |-> 0, state |-> 0, sw |-> 0, tree |-> 0, rd |-> 0, cls2 |-> 0, ana |-> 0, anag |-> 0, anap |-> -1, anacert |-> 0, analoop |-> 0, acc |-> 0, slices |-> 0]
 
 CInit == /\ stk = <<>>
          /\ cs = NoCase
@@ -105,8 +105,12 @@ DefaultedOK(f) == FrameSw(f) \in {2, 5, 9, 10} \/ (OpOf(f.r) = "state" /\ Nodes[
 GuardedOpen == Cardinality({j \in 1..Len(stk) : FrameLim(stk[j]) = 1 /\ VisibleF(stk[j])})
 
 \* st: the operators of the open invocations, outermost first (the call site of the verdict)
+\* w, cfg: input and configuration of the case (known findings are identified by call site, input and configuration)
 V(prop, idx, r, why, a, b) == [p |-> prop, case |-> cs.id, i |-> idx, r |-> r, why |-> why, a |-> a, b |-> b,
-                               st |-> [j \in 1..Len(stk) |-> OpOf(stk[j].r)]]
+                               st |-> [j \in 1..Len(stk) |-> OpOf(stk[j].r)], w |-> cs.w,
+                               cfg |-> [g |-> cs.g, A |-> cs.A, M |-> cs.M, af |-> cs.af, cf |-> cs.cf, trk |-> cs.trk, eol |-> cs.eol,
+                                        ib |-> cs.ib, il |-> cs.il, ic |-> cs.ic, cls |-> cs.cls, xt |-> cs.xt, bmax |-> cs.bmax,
+                                        bchunk |-> cs.bchunk, sched |-> cs.sched]]
 If(cond, v) == IF cond THEN <<v>> ELSE <<>>
 
 \* C06: byte, line and column are a function of the consumed prefix
@@ -298,6 +302,7 @@ DenV(f, idx, v, o, x) ==   \* v: 1 success, 0 failure, 2 exception of class x
             \* a disagreement at an invocation guarded by a limit, or about a limit's exception, is a limit matter
             prop == IF FrameLim(f) # 0 \/ (d.k = "X" /\ d.who \in D!XLimits) THEN "C18"
                     ELSE IF cs.cls >= 2 THEN "C07"       \* the same case through a memory input is validated separately
+                    ELSE IF cs.xt = 3 THEN "C03"         \* slice: the bytes behind the logical end influenced the outcome
                     ELSE PropOfRule(f.r)
         IN If(~agree, V(prop, idx, f.r, "outcome differs from the denotation", <<v, o, x>>, d))
 
@@ -413,7 +418,7 @@ OnEnd(ev, idx) ==
        perr == ev.v = 2 /\ ev.x = 1
    IN /\ verd' = VCap(verd
            \o If(stk # <<>>, V("C08", idx, 0, "run ended with open invocations", Len(stk), 0))
-           \o If(~skip /\ ~agree, V(IF d.k = "X" /\ d.who \in D!XLimits THEN "C18" ELSE IF cs.cls >= 2 THEN "C07" ELSE PropOfRule(cs.g), idx, cs.g, "result of the run differs from the denotation", <<ev.v, ev.o, ev.x>>, d))
+           \o If(~skip /\ ~agree, V(IF d.k = "X" /\ d.who \in D!XLimits THEN "C18" ELSE IF cs.cls >= 2 THEN "C07" ELSE IF cs.xt = 3 THEN "C03" ELSE PropOfRule(cs.g), idx, cs.g, "result of the run differs from the denotation", <<ev.v, ev.o, ev.x>>, d))
            \o If(~skip /\ agree /\ perr /\ d.k = "X" /\ ev.msg # MsgOf(d.who, d.m),
                  V("C05", idx, d.who, "parse_error does not name the first failing must/raise rule", ev.msg, MsgOf(d.who, d.m)))
            \o If(~skip /\ agree /\ perr /\ d.k = "X" /\ ev.nested # d.n,
@@ -434,7 +439,8 @@ OnEnd(ev, idx) ==
            \o If(ev.e >= 0 /\ ev.e # Len(cs.w), V("C18", idx, 0, "end of the input not restored", ev.e, Len(cs.w))))
       /\ stk' = <<>>
       /\ lastx' = [NoLast EXCEPT !.tr = IF ev.v = 1 THEN lastx.tr ELSE <<>>, !.endv = ev.v, !.endx = ev.x]
-      /\ cnt' = [cnt EXCEPT !.ev = @ + 1, !.ends = @ + 1, !.fuel = @ + (IF fuel THEN 1 ELSE 0),
+      /\ cnt' = [cnt EXCEPT !.ev = @ + 1, !.ends = @ + 1, !.fuel = @ + (IF fuel THEN 1 ELSE 0), !.acc = @ + ev.acc,
+                            !.slices = @ + (IF cs.xt = 3 THEN 1 ELSE 0),
                             !.anacert = @ + (IF cnt.anag = cs.g /\ cnt.anap = 0 THEN 1 ELSE 0),
                             !.analoop = @ + (IF cnt.anag = cs.g /\ (fuel \/ d.k = "L") THEN 1 ELSE 0)]
       /\ UNCHANGED cs
@@ -455,7 +461,12 @@ OnTree(ev, idx) ==
    /\ UNCHANGED <<stk, cs, lastx>>
 
 OnOther(ev, idx) ==
-   /\ verd' = VCap(IF ev.k = "crash" THEN Append(verd, V("C03", idx, 0, "harness process crashed (signal or terminate)", ev.why, 0)) ELSE verd)
+   /\ verd' = VCap(IF ev.k = "crash" THEN Append(verd, V("C03", idx, 0, "harness process crashed (signal, sanitizer report or terminate)", ev.why, 0))
+                   \* C03: the contract has no action for an access outside the window: it is a verdict
+                   ELSE IF ev.k = "oob" THEN Append(verd, V("C03", idx, IF stk = <<>> THEN 0 ELSE Top.r,
+                                                          IF ev.kind = 0 THEN "peek at or beyond the end of the available data" ELSE "bump beyond the end of the available data",
+                                                          ev.n, ev.avail))
+                   ELSE verd)
    /\ cnt' = IF ev.k = "rd" THEN Bump(Bump(cnt, "rd"), "ev")
              ELSE IF ev.k = "ana" THEN [cnt EXCEPT !.ev = @ + 1, !.ana = @ + 1, !.anag = ev.g, !.anap = ev.p]   \* what analyze< g >() reported
              ELSE Bump(cnt, "ev")
